@@ -317,7 +317,7 @@ func runScenario(sc Scenario, watchdog, parkDelay time.Duration) Result {
 			pw.Wait()
 			return nil
 		})
-	case "gated-close", "gated-expire", "gated-flushall":
+	case "gated-close", "gated-expire", "gated-expire-partial", "gated-flushall":
 		now := time.Unix(1000, 0)
 		var mu sync.Mutex
 		gf := &gated.Filter{Broker: &sender{w: w}, Expiration: time.Second, NowFunc: func() time.Time { mu.Lock(); defer mu.Unlock(); return now }}
@@ -335,6 +335,12 @@ func runScenario(sc Scenario, watchdog, parkDelay time.Duration) Result {
 		for i := 0; i < sc.Groups && ok; i++ {
 			id := fmt.Sprintf("grp%d", i)
 			ok = r.step("Send(gateable "+id+")", func() error { _, err := b.Send(ctx, "outer", &gp{id: id}); return err })
+			if sc.Kind == "gated-expire-partial" {
+				// the groups are created 0.4 s apart (expiration 1 s), so that later only the oldest ones have expired
+				mu.Lock()
+				now = now.Add(400 * time.Millisecond)
+				mu.Unlock()
+			}
 		}
 		if ok {
 			switch sc.Kind {
@@ -356,6 +362,15 @@ func runScenario(sc Scenario, watchdog, parkDelay time.Duration) Result {
 				now = now.Add(10 * time.Second)
 				mu.Unlock()
 				ok = r.step("Send(gateable after expiry)", func() error { _, err := b.Send(ctx, "outer", &gp{id: "late"}); return err })
+			case "gated-expire-partial":
+				// oldest group expired, the next one not yet: the expiry loop has to stop at the first live group
+				mu.Lock()
+				now = time.Unix(1000, 0).Add(1200 * time.Millisecond)
+				mu.Unlock()
+				ok = r.step("Send(gateable, oldest group expired)", func() error { _, err := b.Send(ctx, "outer", &gp{id: "late"}); return err })
+				if ok {
+					ok = r.step("Send(gateable again)", func() error { _, err := b.Send(ctx, "outer", &gp{id: "late2"}); return err })
+				}
 			case "gated-flushall":
 				ok = r.step("FlushAll", func() error { return gf.FlushAll(ctx) })
 			}
@@ -463,6 +478,9 @@ func allScenarios(r *hc.Rand, repeat int) []Scenario {
 						add(Scenario{Kind: "gated-close", Op: op, Groups: g, Target: tgt, Parked: parked})
 					}
 					add(Scenario{Kind: "gated-expire", Op: "Send", Groups: g, Target: tgt, Parked: parked})
+					if g >= 2 && !parked {
+						add(Scenario{Kind: "gated-expire-partial", Op: "Send", Groups: g, Target: tgt})
+					}
 					add(Scenario{Kind: "gated-flushall", Op: "FlushAll", Groups: g, Target: tgt, Parked: parked})
 				}
 			}
